@@ -15,6 +15,8 @@ pub fn de_kind(e: &DE) -> String {
         DE::StringParseError(_) => "err:utf8".into(),
         #[allow(unreachable_patterns)]
         DE::NestingTooDeep => "err:deep".into(),
+        #[allow(unreachable_patterns)]
+        _ => "err:other".into(),
     }
 }
 
@@ -24,6 +26,8 @@ pub fn se_kind(e: &SE) -> String {
         SE::BufferWriteError(_) => "err:io".into(),
         SE::EmptyObjectPropertyName => "err:emptyname".into(),
         SE::NestingTooDeep => "err:deep".into(),
+        #[allow(unreachable_patterns)]
+        _ => "err:other".into(),
     }
 }
 
